@@ -215,6 +215,17 @@ class Alignment:
             if len(cands) == 1:
                 self.const[k] = cands[0]
                 un_r.remove(cands[0])
+        # moved between a module and an impl block (`const N` -> `Self::N`): same name, same type, same value, unique on both sides
+        un_c = [k for k in cur if k not in self.const]
+        un_r = [k for k in ref if k not in self.const.values()]
+        for k in un_c:
+            c = cur[k]
+            same = lambda x, tok: (x.get('name'), x.get('int'), _norm_ty(x['ty'], tok))
+            cands = [r for r in un_r if same(ref[r], rtok) == same(c, ctok) and c.get('int') is not None]
+            twins = [k2 for k2 in un_c if same(cur[k2], ctok) == same(c, ctok)]
+            if len(cands) == 1 and len(twins) == 1:
+                self.const[k] = cands[0]
+                un_r.remove(cands[0])
         cur, ref = self.cur['statics'], self.ref['statics']
         for k in cur:
             if k in ref:
@@ -351,7 +362,7 @@ class Alignment:
             pk, as_ref = work.pop()
             rparent = as_ref if as_ref is not None else self.fn[pk]
             cs, rs = [c for c in cch.get(pk, []) if c not in self.fn], [r for r in rch.get(rparent, []) if r not in set(self.fn.values())]
-            if len(cs) == len(rs):
+            if len(cs) == len(rs) and all(csig(cur[c_], ctok) == csig(ref[r_], rtok) for c_, r_ in zip(cs, rs)):
                 pairs = list(zip(cs, rs))
             else:
                 # longest common subsequence on signatures
